@@ -140,12 +140,58 @@ func batteryJobs() *pkgJob {
 	cp, ch := controlBattery()
 	j.progs = append(j.progs, cp)
 	j.hists = append(j.hists, ch)
+	mp, mh := maskBattery()
+	j.progs = append(j.progs, mp)
+	j.hists = append(j.hists, mh)
 	var b strings.Builder
 	for _, p := range j.progs {
 		b.WriteString(p.src)
 	}
 	j.src = b.String()
 	return j
+}
+
+// maskBattery: narrowing conversions behind a mask, `(x & M) as T` and
+// `(M & x) as T`, for every wider source type: with M the redundant mask that
+// writeExprAs drops (2^bits(T) - 1), masks just below it (which must NOT be
+// dropped: the C conversion alone would keep the higher bits), 1 and 0; driven
+// with all-ones, the mask, mask + 1 and other boundary arguments.
+func maskBattery() (*program, []call) {
+	p := &program{sname: "bmask", nOps: map[string]int{}}
+	p.fields = []slot{{name: "acc", expr: "this.acc", t: numT(wtys[3]), writable: true}}
+	out := numT(wtys[3])
+	var hist []call
+	n := 0
+	for fi := 1; fi < 4; fi++ {
+		for ti := 0; ti < fi; ti++ {
+			from, to := wtys[fi], wtys[ti]
+			full := to.max()
+			masks := []*big.Int{full, new(big.Int).Rsh(full, 1), new(big.Int).Sub(full, bi(1)), new(big.Int).Rsh(full, 3), bi(1), bi(0)}
+			for mi, m := range masks {
+				for side := 0; side < 2; side++ {
+					e := fmt.Sprintf("(args.x & %s)", m)
+					if side == 1 {
+						e = fmt.Sprintf("(%s & args.x)", m)
+					}
+					mt := &method{name: fmt.Sprintf("m%d", n), out: &out, params: []slot{{name: "x", expr: "args.x", t: numT(from)}}}
+					n++
+					mt.body = []string{fmt.Sprintf("    return ((%s as %s) as base.u64) ~mod+ 1", e, to.src())}
+					p.methods = append(p.methods, mt)
+					vals := []*big.Int{from.max(), full, new(big.Int).Add(full, bi(1)), m, new(big.Int).Add(m, bi(1)),
+						new(big.Int).Lsh(bi(1), uint(from.bits-1)), bi(0), new(big.Int).Add(new(big.Int).Lsh(full, 1), bi(1))}
+					for _, v := range vals {
+						if v.Cmp(from.max()) <= 0 {
+							hist = append(hist, call{m: mt, args: []*big.Int{v}})
+						}
+					}
+					_ = mi
+				}
+			}
+		}
+	}
+	p.nOps["battery:mask-as"] = len(hist)
+	p.src = p.render()
+	return p, hist
 }
 
 // signedBattery: signed operands next to non-negative constants (written with
@@ -340,6 +386,32 @@ func controlBattery() (*program, []call) {
         }
     }
     return 0`)
+	// `while true { …; break }` WITH a continue: must stay a real loop (the
+	// do { } while (0) form would turn the continue into an exit)
+	mk("wtcont", `
+    while true {
+        i ~mod+= 1
+        if i < args.a {
+            continue
+        }
+        acc ~mod+= (i ~mod* 10)
+        break
+    }
+    while.t true {
+        j ~mod+= 1
+        k = 0
+        while k < 2 {
+            k ~mod+= 1
+            if (j ~mod+ k) < args.b {
+                continue.t
+            }
+            acc ~mod+= 1
+        }
+        acc ~mod+= (j ~mod* 100)
+        break.t
+    }.t
+    this.acc ~mod+= acc
+    return acc`)
 	// sibling loops that share a label (only nested loops must differ), each
 	// with deep jumps: C labels have function scope
 	// (fixes/C04-duplicate-jump-label.patch)
